@@ -521,8 +521,15 @@ func (c10Stream) Generate(rng *rand.Rand, n int, thorough bool) []Case {
 		if uhold > 0 && block == 0 && rng.Intn(2) == 0 {
 			ustop = 1
 		}
-		cs = append(cs, Case{Line: fmt.Sprintf("c10 pre=%d post=%d route=%d block=%d mode=%s seed=%d hold=%d upanic=%d uhold=%d uctl=%d shared=%d ustop=%d", pre, rng.Intn(9), route, block,
-			[]string{"plain", "plain", "tls", "starttls"}[rng.Intn(4)], rng.Intn(1<<30), hold, upanic, uhold, uctl, shared, ustop), Kind: "unbind"})
+		mode := []string{"plain", "plain", "tls", "starttls"}[rng.Intn(4)]
+		// Stop begins in the very moment the Unbind has been read (held at the instrumentation point behind the read until
+		// Stop has cancelled the server's context): the Unbind is still an Unbind
+		stoprace := 0
+		if block == 0 && uhold == 0 && mode != "starttls" && pre < 20 && rng.Intn(5) == 0 {
+			stoprace = 1
+		}
+		cs = append(cs, Case{Line: fmt.Sprintf("c10 pre=%d post=%d route=%d block=%d mode=%s seed=%d hold=%d upanic=%d uhold=%d uctl=%d shared=%d ustop=%d stoprace=%d", pre, rng.Intn(9), route, block,
+			mode, rng.Intn(1<<30), hold, upanic, uhold, uctl, shared, ustop, stoprace), Kind: "unbind"})
 	}
 	return cs
 }
@@ -691,8 +698,19 @@ func (c10Stream) Impl(c Case) string {
 	for j := 0; j < post; j++ {
 		buf = append(buf, opFrame(opKinds[rng.Intn(len(opKinds))], int64(900+j))...)
 	}
+	var raceGate *gate
+	if p["stoprace"] == "1" {
+		raceGate = sut.tr.Block("loop.read", 1, pre+1)
+	}
 	if err := cl.send(buf); err != nil {
 		return "harness-error send: " + err.Error()
+	}
+	if raceGate != nil {
+		if raceGate.Arrived(5 * time.Second) {
+			go sut.stop(10 * time.Second)
+			sut.tr.Wait("stop.cancelled", -1, -1, 3*time.Second)
+		}
+		raceGate.Release()
 	}
 	verdict := "ok"
 	conn := 1
